@@ -6,6 +6,7 @@ import (
 	"fmt"
 	"os"
 	"runtime"
+	"runtime/pprof"
 	"strings"
 	"time"
 )
@@ -21,12 +22,21 @@ func newEngine(repo, verif string, tier int) *Engine {
 	return &Engine{
 		repo: repo, verifDir: verif, tier: tier,
 		loopBound: 600, stepBudget: 20_000_000, concCap: 700,
-		solverKind: envOr("SYMGO_SOLVER", "z3"), timeoutMs: 60000,
+		solverKind: envOr("SYMGO_SOLVER", "z3-new"), timeoutMs: 60000,
 		params: map[string]int{}, wantWitness: true,
 	}
 }
 
 func main() {
+	if p := os.Getenv("SYMGO_CPUPROF"); p != "" {
+		f, _ := os.Create(p)
+		pprof.StartCPUProfile(f)
+		go func() {
+			time.Sleep(45 * time.Second)
+			pprof.StopCPUProfile()
+			f.Close()
+		}()
+	}
 	if len(os.Args) < 2 {
 		fmt.Fprintln(os.Stderr, "usage: symgo run|check ...")
 		os.Exit(2)
